@@ -19,6 +19,7 @@ CONSTANTS
   BootAll = FALSE
   MaxRank = 3
   AllRanks = TRUE
+  AllowMulti = TRUE
   AllowBadMerge = TRUE
   AllowBad = FALSE
   PubWeight = 1
